@@ -517,6 +517,14 @@ std::vector<std::string> scriptsOfLen(int len, const std::string &alphabet)
     return cur;
 }
 
+// seconds left of the tier's global deadline (the driver passes the total; V::S().start is the harness start)
+double remainingS(const V::Ctx &ctx)
+{
+    if (ctx.deadlineS <= 0) return 0;                      // no deadline
+    const double r = ctx.deadlineS - difftime(time(nullptr), V::S().start);
+    return r < 2 ? -1 : r;
+}
+
 void body(V::Ctx &ctx)
 {
     // private segment names: /dev/shm/squid-vC55-<pid>_{filenos,anchors,slices}.shm (unlinked by ~Owner)
@@ -536,19 +544,19 @@ void body(V::Ctx &ctx)
 
     const std::string all = "waxbrqsdfuv";
     std::vector<Plan> plans;
-    const std::string few = "ardub";
+    const std::string few = "axrdu";
     if (ctx.quick()) {
         plans.push_back({2, 1, all, 1, true, 2});        // every pair of operations, fine-grained steps
         plans.push_back({2, 1, all, 2, false, 2});       // ... and one more preemption at atomic-operation granularity
-        plans.push_back({2, 2, "ardu", 1, true, 1});     // two operations per process
+        plans.push_back({2, 2, few, 1, true, 1});        // two operations per process
         plans.push_back({3, 1, few, 2, false, 1});       // three processes
     } else {
         plans.push_back({2, 1, all, 2, true, 2});
         plans.push_back({2, 1, all, 3, false, 2});
-        plans.push_back({2, 2, "ardu", 1, true, 1});
-        plans.push_back({2, 2, "ardu", 2, false, 1});
+        plans.push_back({2, 2, "axrdubq", 1, true, 1});
+        plans.push_back({2, 2, few, 2, false, 1});
         plans.push_back({3, 1, all, 2, false, 1});
-        plans.push_back({3, 1, few, 3, false, 1});
+        plans.push_back({3, 1, "ardu", 3, false, 1});
     }
     const char *only = getenv("C55_ONLY_PLAN");          // measurement aid
 
@@ -606,8 +614,10 @@ void body(V::Ctx &ctx)
                     V::end_case();
                     return;
                 }
+                const double left = remainingS(ctx);
+                if (left < 0) { V::S().sh->deadlineHit = 1; V::count("scenarios_skipped_at_deadline"); V::end_case(); return; }
                 try {
-                    VS::explore(sc, st, ctx.deadlineS);
+                    VS::explore(sc, st, left);
                 } catch (const C55AssertionFailed &f) {
                     V::failKey("assert-in-main-context", f.what);
                 }
